@@ -41,6 +41,22 @@ func inclRun(w *World) {
 			cfg.Initial[id] = mm{V: vals[t.Choose(3)]}
 		}
 	}
+	// with an equivalence that ignores the field the predicate reads, an update can move an item across the predicate's
+	// boundary while old and new value are equivalent: the ADD/REMOVE that results is not an equivalent update (one side
+	// is absent) and must still be delivered. Updates between two matching versions may then be suppressed, so the
+	// folded view is compared for membership and the fields the equivalence looks at, and no exact event table applies.
+	cfg.EquivNoV = t.Flag(1, 4)
+	noV := func(v map[string]mm) map[string]mm {
+		if !cfg.EquivNoV {
+			return v
+		}
+		out := map[string]mm{}
+		for id, x := range v {
+			x.V = 0
+			out[id] = x
+		}
+		return out
+	}
 	r := newRealRes(cfg, &simClock{}, &simRNG{})
 	m := newModel(cfg)
 	ns := 1 + t.Choose(2)
@@ -208,7 +224,7 @@ func inclRun(w *World) {
 				ok = false
 			}
 			view := foldOnto(s.view, s.cfg.UpdatesOnly, s.events)
-			if viewString(view) != viewString(want) {
+			if viewString(noV(view)) != viewString(noV(want)) {
 				mode := "lossy"
 				if s.cfg.Backpressure {
 					mode = "backpressure"
@@ -218,7 +234,7 @@ func inclRun(w *World) {
 					map[string]any{"mode": mode})
 				ok = false
 			}
-			if s.cfg.Backpressure && ok {
+			if s.cfg.Backpressure && ok && !cfg.EquivNoV {
 				if d := inclCompare(s); d != "" {
 					w.Violate("decision-table", fmt.Sprintf("%s [%s]: %s\n  predicate: %s\n  events: %s", s.name, s.cfg, d, s.tbl.describe(), eventsString(s.events)), nil)
 					ok = false
